@@ -31,7 +31,7 @@ if P:
     K = PART.K
     SLICES_OK = LEXER in ('basic', 'contextual')
     ONERR_OK = PARSER == 'lalr'
-    NJUNK = P.get('njunk', len(JUNK))
+    NJUNK = P.get('njunk', 8)
     REPRS = ['bytes', 'slice_str', 'slice_bytes', 'slice_str_neg', 'whole_slice'] if SLICES_OK else ['bytes', 'whole_slice']
 
 
